@@ -6,6 +6,7 @@ from vlib.framework import Family
 from vlib import coqlit as L
 from vlib.exactq import ExactQ
 from C19_util import FQ, frac_of
+import C19_hist
 
 PID = "C19"
 PROP_FILES = ["Prop", "PropR"]
@@ -131,7 +132,7 @@ def gen_mc(tier, rng):
   per = 1 if tier == "quick" else 6
   for (ks, km, kst) in combos:
     tagc = "kinds=" + ks + km + kst
-    sel = grid if tier == "thorough" else rng.sample(grid, 90)
+    sel = grid if tier == "thorough" else rng.sample(grid, 60)
     for (p, m, s) in sel:
       for rep in range(per if tier == "thorough" else 1):
         vary = rep > 0 or rng.random() < 0.35
@@ -148,7 +149,7 @@ def gen_mc(tier, rng):
                 "steps=" + ("na" if r is None else str(min(int(r), 6)))]
         yield {"start": a, "modulo": b, "step": c, "k": k, "nk": rng.choice(["q", "q", "q", "fq"]), "tags": tags}
   # edge stream: zero / negative moduli, zeros inside a modulo stream, empty streams, dyadic floats and ints
-  n_edge = 150 if tier == "quick" else 1500
+  n_edge = 120 if tier == "quick" else 1500
   for _ in range(n_edge):
     ks, km, kst = rng.choice(combos)
     p = rng.choice(STARTS); s = rng.choice([Fraction(1), Fraction(-1, 2), Fraction(0), Fraction(3, 4), Fraction(9, 4)])
@@ -456,6 +457,8 @@ def lit_table(c, o):
     cycles = [1, 1] if cyc == "default" else (fr(cyc[1]) if cyc[0] == "int" else cyc[1])
     cl = "(TCallF %s %s %s %s %s %s)" % (qlist(c["tbl"]), q(cycles), q(o.get("cl", [987654321, 1])), arg_lit(c["freq"]),
                                          arg_lit(c["phase"]), L.nat(c["k"]))
+  elif t == "eq":
+    cl = "(TEq %s %s %s %s)" % (qlist(c["t1"]), q(c["c1"]), qlist(c["t2"]), q(c["c2"]))
   elif t == "get":
     cl = "(TGet %s %s)" % (qlist(c["tbl"]), q(c["idx"]))
   elif t == "bintt":
@@ -514,11 +517,24 @@ def gen_resample(tier, rng):
            "zero": fr(0), "k": 40, "ints": False, "tags": ["order=%d" % order, "len=%d" % ln, "step-stream"]}
   for order in orders:
     for ln in (0, 1, 2, 3, 6):
-      # machine ints for old / new (step is a float or int), default zero
+      # machine ints for old / new (step is an int or a float), default zero.  Only combinations that stay in the
+      # exact domain BY THEIR TYPES: lagrange divides (k - rk) / (rj - rk) in Python's float arithmetic when idx is
+      # an int or a float, which is exact iff the position is an integer (a zero factor / factors 1.0) or every
+      # quotient is dyadic (order <= 2: divisors 1 and 2, step a multiple of 1/8)
       sig = [fr(Fraction(rng.randrange(-9, 10))) for _ in range(ln)]
-      old, new = rng.choice([(1, 1), (1, 2), (2, 1), (1, 4), (3, 1), (1, 0)])
+      old, new = rng.choice([(1, 1), (1, 2), (2, 1), (1, 4), (3, 1), (1, 0), (4, 2), (3, 8)])
+      if not int_args_exact(order, old, new):
+        old, new = rng.choice([(1, 1), (2, 1), (3, 1), (4, 2), (1, 0)])
+      assert int_args_exact(order, old, new)
       yield {"sig": sig, "old": {"num": fr(old)}, "new": fr(new), "order": order, "zero": fr(0), "k": 40, "ints": True,
              "tags": ["order=%d" % order, "len=%d" % ln, "int-args"]}
+
+
+def int_args_exact(order, old, new):
+  """resample(sig, old, new) with machine ints: decided from the inputs alone (never from the result)"""
+  if new == 0 or old % new == 0:
+    return True                      # ZeroDivisionError, or integer positions only
+  return order <= 2 and new in (2, 4, 8)
 
 
 def run_resample(c):
@@ -526,6 +542,8 @@ def run_resample(c):
   sig = [ExactQ(F(x)) for x in c["sig"]]
   if c["ints"]:
     old, new = int(F(c["old"]["num"])), int(F(c["new"]))
+    if not int_args_exact(c["order"], old, new):      # (corpus / replayed cases too) outside the exact domain: feed exactly
+      old, new = ExactQ(old), ExactQ(new)
     return observe(lambda: audiolazy.resample(sig, old, new, order=c["order"]), c["k"])
   old = mk_arg(c["old"], "q", stream=True); new = ExactQ(F(c["new"]))
   return observe(lambda: audiolazy.resample(sig, old, new, order=c["order"], zero=ExactQ(F(c["zero"]))), c["k"])
@@ -538,7 +556,7 @@ def lit_resample(c, o):
 
 # ====================================================================== sinusoid / karplus_strong
 def gen_osc(tier, rng):
-  n = 120 if tier == "quick" else 1500
+  n = 80 if tier == "quick" else 1500
   for _ in range(n):
     kind = rng.choice(["nn", "nn", "sn", "ns", "ss"])
     f = Fraction(rng.randrange(-30, 60), rng.choice([1, 2, 3, 7, 10]))
@@ -547,7 +565,7 @@ def gen_osc(tier, rng):
     pa = {"num": fr(p)} if kind[1] == "n" else {"str": [fr(p + Fraction(rng.randrange(-3, 4), 4)) for _ in range(rng.choice([9, 20]))]}
     yield {"t": "sin", "freq": fa, "phase": pa, "k": 16, "tags": ["sinusoid", "args=" + kind,
                                                                 "steps=" + ("na" if f == 0 else str(min(int(TWO_PI / f), 6)))]}
-  n = 150 if tier == "quick" else 2000
+  n = 100 if tier == "quick" else 2000
   delays = [Fraction(1), Fraction(2), Fraction(3), Fraction(7, 2), Fraction(5, 2), Fraction(1, 2), Fraction(4, 3), Fraction(6), Fraction(29, 4), Fraction(1, 4)]
   for i in range(n):
     delay = rng.choice(delays) if rng.random() < 0.9 else Fraction(rng.randrange(1, 40), rng.choice([1, 2, 3, 5]))
@@ -622,6 +640,8 @@ FAMILIES = {
   "table": Family("table", IMPORTS, "t_case", "corr_table", "holds_table", gen_table, run_table, lit_table, nontrivial_table),
   "resample": Family("resample", IMPORTS, "r_case", "corr_resample", "holds_resample", gen_resample, run_resample,
                      lit_resample, nontrivial),
+  "hist": Family("hist", IMPORTS, "list any_case", "corr_hist", "holds_hist", C19_hist.gen_hist, C19_hist.run_hist,
+                 C19_hist.lit_hist, C19_hist.nontrivial_hist),
   "osc": Family("osc", IMPORTS, "o_case", "corr_osc", "holds_osc", gen_osc, run_osc, lit_osc, nontrivial),
 }
 
